@@ -7,6 +7,7 @@ package main
 // tree of LNodes whose leaves carry labels (SECRET / KEEP / DONTCARE / FIELDREF / NS / IP).
 
 import (
+	"encoding/base64"
 	"fmt"
 	"strings"
 )
@@ -271,6 +272,22 @@ var leafKinds = []leafKind{
 		g.nsec++
 		b := fmt.Sprintf("cTdaS2V5Q2FuYXJ5MDAwMDAw%04d", g.nsec%10000)
 		return LO("$binary", LO("subType", LS("00").Keep(), "base64", g.secret(LS(b), ClsBin, b)))
+	}},
+	// contents shaped like the tool's own output: a literal that starts with the replacement text and '_' (the form
+	// of a pseudonym) under each replacement the flag sets use, one that starts with a placeholder, and a valid
+	// ciphertext under the harness key (what an earlier --encrypt run would have put there)
+	{"str-like-default-pseudonym", MStr, func(g *Gen) *LNode { c := g.canary(); return g.secret(LS("REDACTED_"+c), ClsStr, c) }},
+	{"str-like-custom-pseudonym", MStr, func(g *Gen) *LNode { c := g.canary(); return g.secret(LS(customReplacement+"_"+c), ClsStr, c) }},
+	{"str-like-empty-replacement-pseudonym", MStr, func(g *Gen) *LNode { c := g.canary(); return g.secret(LS("_"+c), ClsStr, c) }},
+	{"str-like-placeholder", MStr, func(g *Gen) *LNode { c := g.canary(); return g.secret(LS("REDACTED "+c), ClsStr, c) }},
+	{"str-own-ciphertext", MStr, func(g *Gen) *LNode {
+		g.nsec++
+		ct, err := Encrypt([]byte(fmt.Sprintf("inner plaintext %d", g.nsec)), harnessKey)
+		if err != nil {
+			ct = []byte(fmt.Sprintf("no ciphertext available %d", g.nsec))
+		}
+		t := base64.StdEncoding.EncodeToString(ct)
+		return g.secret(LS(t), ClsStr, t)
 	}},
 	{"str-long", MStr, func(g *Gen) *LNode {
 		c := g.canary()
